@@ -93,6 +93,10 @@ func newAllChainAt(run *ev.Run, seed string, journal *rig.Journal, genesisTime t
 		w.Attach(run, r)
 	}
 	r.InitDefault()
+	// one transaction in fourteen gets a second message that cannot succeed: its first message runs to the end and the
+	// transaction is rolled back as a whole; whatever survives that outside the stores shows up as replica divergence
+	// (C11), and the stores themselves are compared anyway
+	r.Poison = func() bool { return run.Rng.Intn(14) == 0 }
 	return &allChain{run: run, r: r, ws: ws}
 }
 
@@ -114,6 +118,13 @@ func (c *allChain) Step(dt time.Duration) *rig.BlockRecord {
 // countTxs records, per message type, how many transactions succeeded and were rejected.
 func (c *allChain) countTxs(br *rig.BlockRecord) {
 	for _, tx := range br.Txs {
+		if _, poisoned := tx.Tag.(*rig.PoisonedTag); poisoned {
+			c.run.Count("poisoned-tx"+okSuffix(tx), 1)
+			if tx.OK() {
+				c.run.Inconc("a transaction whose second message sends 2^250 stake succeeded at height %d", br.Height)
+			}
+			continue
+		}
 		if tx.OK() {
 			c.run.Count("all-tx-ok", 1)
 		} else {
